@@ -1137,6 +1137,11 @@ func computedFieldsSingle(w *World, r *Report, prop string) {
 					}
 				}
 			}
+			if !guarded {
+				// the test stands where this function is entered from: fn is only reached through calls (by name, through the
+				// closure a guarding wrapper returns, through the row of a table) that are under the !IsRepeat edge
+				guarded = w.notRepeatedAtEveryCall(fn, holder)
+			}
 			// ... and only of a field that is a plain number *now*: the test of the field's kind is made in the same iteration as the
 			// replacement (the loop over the attributes replaces f.Attr itself; a test hoisted out of it lets a second attribute
 			// silently overwrite the first)
@@ -1200,6 +1205,9 @@ func computedFieldsSingle(w *World, r *Report, prop string) {
 							stale = w.instrPos(at)
 						}
 					}
+				}
+				if !fresh && stale == "" && w.plainNumberAtEveryCall(fn, b, holder) {
+					fresh = true // tested by whoever calls this function, in the same iteration
 				}
 				fkey := fmt.Sprintf("%s makes a %s #%d only of a field that is a plain number at that moment", fnKey(fn), kind, cnt)
 				switch {
